@@ -2,17 +2,17 @@
 SPECIFICATION Spec
 CONSTANTS
   Nodes <- MCNodes
-  Chunks <- MCChunks
-  Holder0 <- MCHolder
+  Chunks <- MCChunks1
+  Holder0 <- MCHolder1
   Funds <- MCFundsRich
   Thr = 2
   Tol = 2
-  FaultKinds <- AllFaults
+  FaultKinds <- TickFaults
   MaxFaults = 1
   MaxTop = 1
   MaxSettle = 0
-  Requesters <- MCRequesters
-  RouteLists <- MCRoutesSmall
+  Requesters <- OnlyA
+  RouteLists <- MCRoutesTick
   Concurrent = FALSE
   Timeouts = TRUE
 INVARIANTS TypeOK P1_StoredOnlyAfterValidDelivery P2_CreditedOncePerAcceptedDelivery P2_BooksAreCredits
